@@ -11,6 +11,9 @@ declare -A CHECKS=(
  [C09c]="C09" [C09d]="C09" [C10c]="C10 C04" [C10d]="C10" [C11c]="C11 C15" [C11d]="C11 C15" [C12c]="C12 C02" [C12d]="C12 C10"
  [C05c]="C05" [C05d]="C05 C10" [C06c]="C06 C15" [C06d]="C06 C15" [C07c]="C07" [C07d]="C07" [C08c]="C08" [C08d]="C08"
  [C17c]="C17 C15" [C17d]="C17" [C18c]="C18" [C18d]="C18"
+ [C01e]="C01 C15" [C01f]="C01 C10" [C02e]="C02 C15" [C02f]="C02 C12" [C03e]="C03 C15" [C03f]="C03" [C04e]="C04 C15" [C04f]="C04"
+ [C09e]="C09" [C09f]="C09" [C10e]="C10" [C10f]="C10 C01" [C12e]="C12 C10" [C12f]="C12 C03" [C13e]="C13 C15" [C13f]="C13"
+ [C16e]="C16" [C16f]="C16" [C16g]="C16" [C16h]="C16"
  [C13c]="C13" [C13d]="C13" [C14c]="C14" [C14d]="C14 C07" [C15c]="C15" [C15d]="C15" [C16c]="C16" [C16d]="C16"
 )
 for s in "$@"; do
@@ -37,7 +40,7 @@ for c in checks:
         case = re.search(r'case: (.*)', body); what = re.search(r'what: (.*)', body)
         det[c] = {'exit': code, 'first_case': case.group(1)[:200] if case else '', 'what': what.group(1)[:240] if what else ''}
 readme = open(f'/verif/seeded/{s}/README.md').read() if __import__('os').path.exists(f'/verif/seeded/{s}/README.md') else ''
-meta = {'id': s, 'breaks_property': s[:3], 'source': 'independent sub-agent given only the property text and a scratch worktree of /repo' + (' (second round: asked for cooperating sites, state leaks, rare arithmetic, feature interactions, interleavings; told which first-round changes to avoid)' if s[3] in 'cd' else ''),
+meta = {'id': s, 'breaks_property': s[:3], 'source': 'independent sub-agent given only the property text and a scratch worktree of /repo' + (' (second round: asked for cooperating sites, state leaks, rare arithmetic, feature interactions, interleavings; told which first-round changes to avoid)' if s[3] in 'cdefgh' else ''),
         'confirmed': {'patch_applies_to_HEAD': True, 'existing_suite_passes_with_change': suite_ok, 'demo_passes_on_clean_tree': clean, 'demo_fails_with_change': demo_fails},
         'what_i_ran': 'tools/try_seed.sh (scratch worktree: go build ./..., go test -count=1 ./..., the demo with and without the change; then ./check.sh <ID> --tier quick with VERIF_REPO=<worktree>)',
         'checks_run': det,
